@@ -20,7 +20,7 @@ def one(seed):
         if r.returncode != 0:
             return {"seed": seed, "error": "patch does not apply at HEAD: " + r.stderr[-200:]}
         env = dict(os.environ, VERIF_REPO=wt)
-        fams = os.environ.get("SEED_FAMILIES", "plain,full,wide,hints,hard,dense,deep,lazycon,soft,softx,softloop,reuse,snapshot,async,asynchard,cache,diamond")
+        fams = os.environ.get("SEED_FAMILIES", "plain,full,wide,wider,hints,hard,dense,deep,lazycon,soft,softx,softloop,reuse,snapshot,async,asynchard,cache,diamond")
         r = subprocess.run([sys.executable, os.path.join(HERE, "tools", "cert_sweep.py"), "ALL", fams, n,
                             os.environ.get("VERIF_SEED", "0")], env=env, capture_output=True, text=True)
         viol = [l for l in r.stdout.split("\n") if l.startswith("VIOL")]
